@@ -76,7 +76,7 @@ impl<Key: KeyExchange + ?Sized> KeyDerivation for Ecdh1PU<'_, Key> {
         }
 
         // the authentication tag is appended to pub_info, if any.
-        let mut pub_info = [0u8; 132];
+        let mut pub_info = [0u8; 136]; // keydatalen (4) + tag length prefix (4) + up to 128 tag bytes
         let mut pub_w = Writer::from_slice(&mut pub_info[..]);
         pub_w.buffer_write(&((output_len as u32) * 8).to_be_bytes())?; // output length in bits
         if !self.cc_tag.is_empty() {
